@@ -78,7 +78,7 @@ BVD_COUNT = ["bvd.leading_zeros", "bvd.leading_ones", "bvd.trailing_zeros", "bvd
 GROUPS["bvd_count"] = G("bvd_count", BVD_PRELUDE, BVD_BASE + stub(BVD_CORE) + verify(BVD_COUNT))
 GROUPS["bvd_count"]["features"] = "#![feature(allocator_api)]"
 
-GROUPS["bvd_misc"] = G("bvd_misc", BVD_PRELUDE, BVD_BASE + stub(BVD_CORE) + verify(["bvd.shl_in", "bvd.shr_in", "bvd.not"]))
+GROUPS["bvd_misc"] = G("bvd_misc", BVD_PRELUDE, BVD_BASE + stub(BVD_CORE) + verify(["bvd.shl_in", "bvd.shr_in", "bvd.not", "bvd.not_ref"]))
 GROUPS["bvd_misc"]["features"] = "#![feature(allocator_api)]"
 
 GROUPS["bvd_edit"] = G("bvd_edit", BVD_PRELUDE, BVD_BASE + stub(BVD_CORE) + verify(["bvd.resize", "bvd.ones", "bvd.is_zero"]))
@@ -341,6 +341,8 @@ GROUPS["iter_bvd"]["features"] = "#![feature(allocator_api)]"
 GROUPS["iter_bvf"] = G("iter_bvf", BVF_PRELUDE + ["iter.rs"], BVF_BASE + [("decl", "decl.BitIterator")] + stub(BVF_CORE) + verify(ITER_UNITS))
 GROUPS["iter_bv"] = G("iter_bv", BV_PRELUDE + ["iter.rs"], BV_BASE + [("decl", "decl.BitIterator")] + stub(["bv.len", "bv.get"]) + verify(ITER_UNITS))
 GROUPS["iter_bv"]["features"] = "#![feature(allocator_api)]"
+GROUPS["bvd_shift_ref"] = G("bvd_shift_ref", BVD_PRELUDE + ["chunk_seq.rs"], BVD_BASE + stub(BVD_CORE) + verify(["bvd.shl_ref", "bvd.shr_ref"]))
+GROUPS["bvd_shift_ref"]["features"] = "#![feature(allocator_api)]"
 GROUPS["mul_theory"] = dict(name="mul_theory", prelude=lambda ctx: WORD_PRELUDE + VALUE_PRELUDE + ["value_mul.rs"], items=lambda ctx: [("decl", "decl.Bit")])
 
 def cmp_prelude(ctx):
@@ -524,6 +526,10 @@ PROPS["C01"]["quick"] += mul_jobs(PQ, WQ)
 PROPS["C01"]["thorough"] += mul_jobs(PT, W4)
 PROPS["C17"] = {"quick": [("iter_bvd", dict(U64, **ITER_BVD)), ("iter_bv", dict(U64, **ITER_BV))] + [("iter_bvf", iter_bvf(i)) for i in WQ],
                  "thorough": [("iter_bvd", dict(U64, **ITER_BVD)), ("iter_bv", dict(U64, **ITER_BV))] + [("iter_bvf", iter_bvf(i)) for i in W4]}
+def dshift_ref(ts):
+    return [("bvd_shift_ref", {"I": "u64", "T": t}) for t in ts]
+PROPS["C05"]["quick"] += dshift_ref(["u8", "u128"])
+PROPS["C05"]["thorough"] += dshift_ref(TYPES6)
 BVD_ARITH_JOBS = [("bvd_arith", dict(U64, **ARITH_D[o])) for o in ("add", "sub")]
 PROPS["C01"]["quick"] += BVD_ARITH_JOBS
 PROPS["C01"]["thorough"] += BVD_ARITH_JOBS
@@ -534,7 +540,7 @@ _BITOPS_Q = [("bvf_bitops", pair(i, j, **BITOPS[o])) for (i, j) in [("u64", "u64
             [("bvd_bitops", dict(U64, **BITOPS[o])) for o in ("and", "or", "xor")]
 _BV_Q = BV_CORE_J + BV_MORE_J + bv_ops_jobs(["u64"], ("or",), BITOPS) + bv_ops_jobs(["u64"], ("add", "sub"), ARITH_D)
 PROPS["C03"] = {"quick": _ARITH_Q + BVD_ARITH_JOBS + _BITOPS_Q + _BV_Q, "thorough": PROPS["C01"]["thorough"] + PROPS["C04"]["thorough"]}
-PROPS["C20"] = {"quick": _ARITH_Q + BVD_ARITH_JOBS + _BITOPS_Q + bv_ops_jobs(["u64"], ("or",), BITOPS) + bv_ops_jobs(["u64"], ("add", "sub"), ARITH_D) + bv_shift_jobs(["u64"]), "thorough": PROPS["C01"]["thorough"] + PROPS["C04"]["thorough"]}
+PROPS["C20"] = {"quick": _ARITH_Q + BVD_ARITH_JOBS + _BITOPS_Q + bv_ops_jobs(["u64"], ("or",), BITOPS) + bv_ops_jobs(["u64"], ("add", "sub"), ARITH_D) + bv_shift_jobs(["u64"]) + dshift_ref(["usize"]) + [("bvd_misc", U64)], "thorough": PROPS["C01"]["thorough"] + PROPS["C04"]["thorough"]}
 PROPS["C02"] = {"quick": BVD_ARITH_JOBS[1:], "thorough": BVD_ARITH_JOBS}
 
 # -------------------------------------------------------------------------------------------------
